@@ -1,9 +1,104 @@
 (* C07 — property theorems only. Statements are pinned by vp/check.py. *)
-From PV Require Import Lib.Base Cbor.Item Cbor.Enc Cbor.Dec Cbor.Api C07.Model.
+From PV Require Import Lib.Base Cbor.Item Cbor.Enc Cbor.Dec Cbor.Api C07.Model C07.Order C07.Codec.
 Open Scope Z_scope.
 
-Theorem placeholder_strip0_idem : forall l, strip0 (strip0 l) = strip0 l.
+(* ---- big integers: the comparison is the numeric one ---- *)
+Theorem be_lex_is_numeric : forall a b,
+  bytes_wf a -> bytes_wf b -> len a = len b -> vec_u8_cmp a b = (be_val a ?= be_val b).
+Proof. intros a b. exact (be_lex_is_numeric_proof a b). Qed.
+
+Theorem bigint_cmp_is_Zcompare : forall a b,
+  wf_bigint a = true -> wf_bigint b = true -> bigint_cmp a b = (bigint_val a ?= bigint_val b).
+Proof. exact bigint_cmp_is_Zcompare_proof. Qed.
+
+(* ---- PlutusData::cmp is a total (pre)order whose Equal is the library's == ---- *)
+Theorem pdata_cmp_refl : forall a, pdata_cmp a a = Eq.
+Proof. exact pdata_cmp_refl_proof. Qed.
+
+Theorem pdata_cmp_antisym : forall a b,
+  wf_pdata a = true -> wf_pdata b = true -> pdata_cmp b a = CompOpp (pdata_cmp a b).
+Proof. intros a b Ha Hb. exact (pdata_cmp_antisym_proof a Ha b Hb). Qed.
+
+Theorem pdata_cmp_trans : forall a b c,
+  wf_pdata a = true -> wf_pdata b = true -> wf_pdata c = true ->
+  pdata_cmp a b = Lt -> pdata_cmp b c = Lt -> pdata_cmp a c = Lt.
+Proof. intros a b c Ha Hb Hc. exact (proj1 (proj2 (proj2 (pdata_cmp_R3 a Ha b c Hb Hc)))). Qed.
+
+Theorem pdata_cmp_le_trans : forall a b c,
+  wf_pdata a = true -> wf_pdata b = true -> wf_pdata c = true ->
+  pdata_cmp a b <> Gt -> pdata_cmp b c <> Gt -> pdata_cmp a c <> Gt.
 Proof.
-  induction l as [|x t IH]; [reflexivity|]. cbn [strip0]. destruct (x =? 0) eqn:E; [exact IH|].
-  cbn [strip0]. rewrite E. reflexivity.
+  intros a b c Ha Hb Hc H1 H2. destruct (pdata_cmp_R3 a Ha b c Hb Hc) as (R1 & R2 & R3' & R4).
+  destruct (pdata_cmp a b) eqn:E1; [|clear H1|congruence];
+    destruct (pdata_cmp b c) eqn:E2; try congruence.
+  - rewrite (R1 eq_refl). discriminate.
+  - rewrite (R1 eq_refl). discriminate.
+  - rewrite (R2 eq_refl). discriminate.
+  - rewrite (R3' eq_refl eq_refl). discriminate.
 Qed.
+
+Theorem pdata_cmp_eq_compat : forall a b c,
+  wf_pdata a = true -> wf_pdata b = true -> wf_pdata c = true ->
+  pdata_cmp a b = Eq -> pdata_cmp a c = pdata_cmp b c.
+Proof. intros a b c Ha Hb Hc. exact (proj1 (pdata_cmp_R3 a Ha b c Hb Hc)). Qed.
+
+(* ---- what the equality identifies: constructor index, integer value, element lists ---- *)
+Theorem pdata_eq_iff_norm : forall a b,
+  wf_pdata a = true -> wf_pdata b = true -> (pdata_eqb a b = true <-> norm a = norm b).
+Proof.
+  intros a b Ha Hb. unfold pdata_eqb. rewrite <- (pdata_cmp_eq_norm a Ha b Hb).
+  destruct (pdata_cmp a b); cbn; split; congruence.
+Qed.
+
+Theorem pdata_eq_ignores_indef : forall a b,
+  wf_pdata a = true -> wf_pdata b = true -> set_indef false a = set_indef false b -> pdata_eqb a b = true.
+Proof.
+  intros a b Ha Hb H. apply pdata_eq_iff_norm; [assumption|assumption|].
+  rewrite <- (norm_set_indef false a), <- (norm_set_indef false b), H. reflexivity.
+Qed.
+
+(* ---- round trip ---- *)
+Theorem pdata_dec_enc : forall d r,
+  wf_pdata d = true ->
+  exists d', decode_pdata (enc_pdata d ++ r) = DOk (d', r) /\ pdata_eqb d' d = true.
+Proof. intros d r Hwf. exists (canon_anyc d). exact (decode_enc_wf d r Hwf). Qed.
+
+Theorem pdata_dec_enc_exact : forall d r,
+  wf_pdata d = true -> strict_pdata d = true -> decode_pdata (enc_pdata d ++ r) = DOk (d, r).
+Proof. intros d r Hwf Hst. exact (decode_enc_strict d r Hwf Hst). Qed.
+
+(* ---- 64-byte chunking re-assembles; all chunks but the last are full ---- *)
+Theorem bounded_bytes_chunks : forall b,
+  bytes_wf b ->
+  concat (chunks64 b) = b /\ Forall (fun c => bytes_wf c /\ 1 <= len c <= 64) (chunks64 b) /\
+  (forall pre c post, chunks64 b = pre ++ c :: post -> post <> [] -> len c = 64).
+Proof. exact chunks64_spec. Qed.
+
+Theorem bounded_bytes_dec_enc : forall b r, bytes_wf b -> d_bounded (enc_bounded b ++ r) = DOk (b, r).
+Proof. exact d_bounded_enc. Qed.
+
+(* ---- non-vacuity: concrete well-formed data across the chunk boundaries and tag forms ---- *)
+Definition ex_bytes (n : nat) : list Z := map (fun i => Z.of_nat i mod 251) (seq 0 n).
+Definition ex_data : pdata :=
+  PConstr 102 (Some 7) true
+    [PMap false [(PBigInt (BInt (-18446744073709551616)), PBytes (ex_bytes 64));
+                 (PBigInt (BigUInt (ex_bytes 65)), PBytes (ex_bytes 65))];
+     PArray true [PBytes (ex_bytes 128); PBytes (ex_bytes 129); PBigInt (BigNInt (ex_bytes 200))];
+     PConstr 121 None false [PConstr 1400 None true []; PBigInt (BInt 18446744073709551615)]].
+
+Example ex_data_roundtrip :
+  wf_pdata ex_data = true /\ strict_pdata ex_data = true /\
+  decode_pdata (enc_pdata ex_data) = DOk (ex_data, []) /\
+  map (fun c => len c) (chunks64 (ex_bytes 129)) = [64; 64; 1] /\
+  map (fun c => len c) (chunks64 (ex_bytes 128)) = [64; 64] /\
+  map (fun c => len c) (chunks64 (ex_bytes 65)) = [64; 1].
+Proof. repeat split; vm_compute; reflexivity. Qed.
+
+(* mixed representations of equal and adjacent numbers; -0 = +0; leading zeros *)
+Example ex_bigint_order :
+  bigint_cmp (BInt 0) (BigNInt []) = Eq /\ bigint_cmp (BigNInt [0; 0]) (BigUInt [0]) = Eq /\
+  bigint_cmp (BigUInt [0; 0; 1]) (BInt 1) = Eq /\ bigint_cmp (BigNInt [1; 0]) (BInt (-255)) = Lt /\
+  bigint_cmp (BInt 18446744073709551615) (BigUInt [1; 0; 0; 0; 0; 0; 0; 0; 0]) = Lt /\
+  bigint_val (BigNInt [1; 0]) = -256 /\
+  pdata_cmp (PConstr 102 (Some 7) false []) (PConstr 1280 None true []) = Eq.
+Proof. repeat split; vm_compute; reflexivity. Qed.
